@@ -50,7 +50,11 @@ func resolveStruct(rv reflect.Value, fieldName string) (any, bool) {
 		if !f.IsExported() {
 			return nil, false
 		}
-		fv := rv.FieldByIndex(f.Index)
+		// A field promoted through a nil embedded pointer does not exist.
+		fv, err := rv.FieldByIndexErr(f.Index)
+		if err != nil {
+			return nil, false
+		}
 		return fv.Interface(), true
 	}
 
